@@ -44,8 +44,8 @@ def main():
             entry='set_sim_join', measure='JACCARD', nl=1, nr=2, k=2, kernel='contract',
             comp_ops=['>=', '>', '='], props=P)), bounds=dict(rows='1x2', k=2, threshold='symbolic, kernel under K'))
     ck.e2('core-OC-1x2', h_core.make(dict(entry='oc_split', measure='OVERLAP_COEFFICIENT', nl=1, nr=2,
-                                          k=3, thresholds=[0.5, 0.67, 1.0], comp_ops=['>=', '>', '='],
-                                          props=P)), bounds=dict(rows='1x2', k=3))
+                                          k=3, sym_threshold=True, comp_ops=['>=', '>', '='],
+                                          props=P)), bounds=dict(rows='1x2', k=3, threshold='symbolic double in (0,1] (no kernel involved)'))
     ck.e2('core-overlap-1x2', h_core.make(dict(entry='filter_split', filter='OverlapFilter',
                                                measure='OVERLAP', nl=1, nr=2, k=3, thresholds=[1, 2, 3],
                                                comp_ops=['>=', '>', '='], props=P)),
@@ -63,7 +63,8 @@ def main():
             validate_every=60)))
         ck.e2('api-%s-k2' % e, h_join.make(st.join_cfg(
             e, nl=1, nr=2, k=2, kmin=1, comp_ops=['>='], thresholds=[1, 2] if e == 'overlap_join' else [0.5, 0.67],
-            n_jobs=[1], props=P, validate_every=60)))
+            n_jobs=[1], props=P, validate_every=60, out_attrs=[(None, None), (['x'], ['y'])],
+            extra_none=[True])))
     ck.finish()
 
 
